@@ -2,7 +2,7 @@
    ExtrOcamlBasic only (bool, option, unit, list, prod, sumbool, ... as OCaml's own);
    N, Z, positive, nat and byte stay Coq datatypes.  No Extract Constant. *)
 From Coq Require Import extraction.Extraction extraction.ExtrOcamlBasic.
-From IKE Require Import Lib.Base Prim.Hmac Spec.PrfPlus Impl.EapAkaPrf Impl.Msg Impl.Eap Impl.Payloads Impl.Message Prim.Cbc Impl.Security Impl.Ike.
+From IKE Require Import Lib.Base Prim.Hmac Spec.PrfPlus Impl.EapAkaPrf Impl.Msg Impl.Eap Impl.Payloads Impl.Message Prim.Cbc Impl.Security Impl.Ike Spec.Modp Impl.Dh Impl.Registry Impl.Build.
 Extraction Language OCaml.
 Extraction "model.ml"
   b2n n2b be_val nat_of N.of_nat
@@ -14,4 +14,14 @@ Extraction "model.ml"
   container_encode decode_payloads header_marshal parse_header encode decode ptype
   draw prf_plus_obj pkcs7_padding aes_encrypt aes_decrypt new_crypto cbc_enc cbc_dec
   generate_key_for_ikesa sa_of_keys generate_key_for_childsa prf_once ho_new ho_sum ho_write ho_reset
-  calculate_integrity encrypt_msg encode_encrypt decrypt_msg decode_decrypt.
+  calculate_integrity encrypt_msg encode_encrypt decrypt_msg decode_decrypt
+  calc_at_mac
+  be_min dh_public dh_shared generate_random_number dh_materials dh_prime dh_len
+  encr_to_transform encr_decode integ_to_transform integ_decode prf_to_transform prf_decode
+  dh_to_transform dh_decode esn_to_transform esn_decode ike_to_proposal ike_of_proposal
+  child_to_proposal child_of_proposal encr_keylen integ_keylen integ_outlen prf_keylen
+  new_header new_message is_response is_initiator
+  build_notification build_certificate build_encrypted build_key_exchange build_idi build_idr build_auth
+  build_configuration build_cp_attr build_nonce build_tsi build_tsr build_selector build_sa build_proposal
+  build_delete build_transform build_eap build_eap_success build_eap_failure build_eap5g_start build_eap5g_nas
+  build_notify_5g_qos_info build_notify_nas_ip4 build_notify_up_ip4 build_notify_nas_tcp_port.
